@@ -1,6 +1,7 @@
 package vc
 
 import (
+	"sync"
 	"govc/internal/spec"
 	"fmt"
 	"go/token"
@@ -97,10 +98,22 @@ type Obligation struct {
 	ExpectSat bool
 	Inputs    []string // terms whose values are requested in the model
 	Extra     []string // assumptions of this obligation only (lemmas named in the clause)
+	tag       pathTag
 }
 
 // fctx is the verification context of one function under contract.
+// pathTag says where an assumption or obligation was generated: the basic block of the function under verification that
+// was being executed (nil: before / after the body) and, for a latch block executed once per incoming path, which copy.
+type pathTag struct {
+	blk  *ssa.BasicBlock
+	copy int
+}
+
 type fctx struct {
+	curTag    pathTag
+	assumeTag []pathTag // parallel to assumes
+	dagReach  map[*ssa.BasicBlock]map[*ssa.BasicBlock]bool
+	dagMu     sync.Mutex // Query runs concurrently
 	quiet   map[string][]string // quiet post-conditions of the calls made so far, by "<callee>.<label>"
 	P       *Prog
 	S       *Sorts
@@ -145,6 +158,7 @@ func (c *fctx) define(prefix, sort, term string) string {
 	}
 	n := c.fresh(prefix, sort)
 	c.assumes = append(c.assumes, fmt.Sprintf("(= %s %s)", n, term))
+	c.assumeTag = append(c.assumeTag, c.curTag)
 	return n
 }
 
@@ -153,6 +167,17 @@ func (c *fctx) assume(t string) {
 		return
 	}
 	c.assumes = append(c.assumes, t)
+	c.assumeTag = append(c.assumeTag, c.curTag)
+}
+
+// assumeGlobal records a fact that is stated once, where it is first needed, but holds on every path (facts about
+// package-level variables, lemmas): it is not subject to the path slicing of Query.
+func (c *fctx) assumeGlobal(t string) {
+	if t == "" || t == "true" {
+		return
+	}
+	c.assumes = append(c.assumes, t)
+	c.assumeTag = append(c.assumeTag, pathTag{})
 }
 
 func (c *fctx) errorf(format string, args ...interface{}) {
@@ -420,6 +445,7 @@ func (c *fctx) addObl(o *Obligation) {
 	o.nAssume = len(c.assumes)
 	o.nDecl = len(c.decls)
 	o.ctx = c
+	o.tag = c.curTag
 	c.obls = append(c.obls, o)
 	// an asserted fact may be assumed afterwards
 	if !o.ExpectSat {
